@@ -1038,3 +1038,179 @@ fn f_c15_responder(decision: u8) {
 h!(c15_responder_accept, 8, f_c15_responder(0));
 h!(c15_responder_reject, 8, f_c15_responder(1));
 h!(c15_responder_drop, 8, f_c15_responder(2));
+
+// =======================================================================================
+// C16: keepalive under a virtual clock (tokio::time model).  The real `schedule_ping_task`
+// runs; ticks come from the interval model, timestamps read the same clock.
+// =======================================================================================
+use crate::timing::OptionalDuration;
+use tokio::time::verif as vclock;
+fn ka_options(i_s: u64, t_s: u64) -> Options {
+    // 0 = disabled (as the command line maps it)
+    let i = if i_s == 0 { OptionalDuration::NONE } else { OptionalDuration::from_secs(i_s) };
+    let t = if t_s == 0 { OptionalDuration::NONE } else { OptionalDuration::from_secs(t_s) };
+    small_options().keepalive_interval(i).keepalive_timeout(t)
+}
+fn count_pings(rx: &mut mpsc::UnboundedReceiver<Message>) -> usize {
+    let mut n = 0;
+    let mut k = 0;
+    while k < 3 {
+        match pop_out(rx) {
+            Out::Ping => n += 1,
+            Out::Nothing => break,
+            _ => vfail!("P:C16 the keepalive loop queued something other than a Ping"),
+        }
+        k += 1;
+    }
+    n
+}
+/// Pong history chosen by the solver: after each tick the peer answers or not; an answer
+/// arrives at a solver-chosen instant before (or at) the next tick.  At every tick the loop
+/// must send exactly one Ping and must report a timeout exactly when more than T has
+/// elapsed since the last pong (or start-up); hence no earlier than T and no later than
+/// T + I after it.
+fn f_c16_history(i_s: u64, t_s: u64, ticks: usize) {
+    let mut ep = endpoint(ka_options(i_s, t_s), KRng::fixed([1, 2, 3, 4]));
+    let i_ms = i_s * 1000;
+    // effective timeout: clamped to at least the interval
+    let t_ms = if t_s == 0 { u64::MAX } else if t_s < i_s { i_ms } else { t_s * 1000 };
+    let fut = ep.task.schedule_ping_task();
+    let mut fut = core::mem::ManuallyDrop::new(fut);
+    let mut last_pong: u64 = 0;
+    let mut k = 0;
+    let mut timed_out = false;
+    while k < ticks && !timed_out {
+        let now = vclock::now_ms();
+        vassert!(now == k as u64 * i_ms, "P:C16 tick not at a multiple of the interval");
+        let r = poll_once(unsafe { Pin::new_unchecked(&mut *fut) });
+        let elapsed = now - last_pong;
+        match r {
+            Poll::Ready(Err(e)) => {
+                vassert!(matches!(e, Error::KeepaliveTimeout), "P:C16 the keepalive loop failed with something other than KeepaliveTimeout");
+                vassert!(elapsed > t_ms, "P:C16 keepalive timeout reported although no more than T elapsed since the last pong");
+                vassert!(elapsed <= t_ms.saturating_add(i_ms), "P:C16 keepalive timeout reported later than T + I after the last pong");
+                timed_out = true;
+                core::mem::forget(e);
+            }
+            Poll::Ready(Ok(())) => vfail!("P:C16 the keepalive loop ended without an error"),
+            Poll::Pending => {
+                vassert!(elapsed <= t_ms, "P:C16 peer silent for more than T but no keepalive timeout at this tick");
+                vassert!(count_pings(&mut ep.tx_msg_rx) == 1, "P:C16 not exactly one Ping per interval");
+                vassert!(vclock::next_deadline_ms() == now + i_ms, "P:C16 next tick not scheduled one interval later");
+                // the peer may answer at some instant in (now, now + I]
+                if kani::any() {
+                    let at: u64 = kani::any();
+                    kani::assume(at > now && at <= now + i_ms);
+                    vclock::advance_to(at);
+                    let pr = now_or_never(ep.task.process_message(Message::Pong, false));
+                    vassert!(matches!(pr, Some(Ok(false))), "P:C16 a Pong made process_message fail");
+                    core::mem::forget(pr);
+                    last_pong = at;
+                }
+                vclock::advance_to(now + i_ms);
+            }
+        }
+        k += 1;
+    }
+    kani::cover!(timed_out, "?a timeout was reported");
+    kani::cover!(!timed_out, "?all ticks passed without timeout");
+    kani::cover!(true, "history evaluated");
+    forget_ep(ep);
+}
+h!(c16_history_i1_t1, 8, f_c16_history(1, 1, 3));
+h!(c16_history_i2_t3, 8, f_c16_history(2, 3, 4));
+h!(c16_history_i1_t3, 8, f_c16_history(1, 3, 5));
+h!(c16_history_i2_t1_clamped, 8, f_c16_history(2, 1, 3));
+h!(c16_history_i1_tnone, 8, f_c16_history(1, 0, 4));
+
+/// Keepalive disabled: no Ping, no timeout, no timer armed - whatever the timeout option is.
+fn f_c16_disabled(t_s: u64) {
+    let mut ep = endpoint(ka_options(0, t_s), KRng::fixed([1, 2, 3, 4]));
+    let fut = ep.task.schedule_ping_task();
+    let mut fut = core::mem::ManuallyDrop::new(fut);
+    let mut k = 0;
+    while k < 2 {
+        vassert!(poll_once(unsafe { Pin::new_unchecked(&mut *fut) }).is_pending(), "P:C16 keepalive disabled but the loop ended / timed out");
+        vassert!(pop_out(&mut ep.tx_msg_rx) == Out::Nothing, "P:C16 keepalive disabled but a Ping was sent");
+        vassert!(vclock::next_deadline_ms() == u64::MAX, "P:C16 keepalive disabled but a timer is armed");
+        let dt: u64 = kani::any();
+        kani::assume(dt <= 1_000_000);
+        vclock::advance_to(vclock::now_ms() + dt);
+        k += 1;
+    }
+    kani::cover!(true, "disabled keepalive evaluated");
+    forget_ep(ep);
+}
+h!(c16_disabled_tnone, 8, f_c16_disabled(0));
+h!(c16_disabled_t5, 8, f_c16_disabled(5));
+
+/// Clamping rule of the options API for all values (seconds): after
+/// `.keepalive_interval(I).keepalive_timeout(T)` the effective timeout is at least I, and
+/// "no timeout" stays "no timeout".
+fn f_c16_clamp() {
+    let i_s: u64 = kani::any();
+    let t_s: u64 = kani::any();
+    kani::assume(i_s <= 1_000_000_000 && t_s <= 1_000_000_000);
+    let o = ka_options(i_s, t_s);
+    let i = o.keepalive_interval;
+    let t = o.keepalive_timeout;
+    vassert!(t >= i, "P:C16 effective keepalive timeout is shorter than the interval");
+    if t_s == 0 {
+        vassert!(t.is_none(), "P:C16 a disabled timeout became finite");
+    }
+    if t_s >= i_s && i_s != 0 && t_s != 0 {
+        vassert!(t == OptionalDuration::from_secs(t_s), "P:C16 a timeout longer than the interval was changed");
+    }
+    if i_s == 0 {
+        vassert!(t.is_none(), "P:C16 without an interval (no pings) a finite timeout must not remain");
+    }
+    kani::cover!(t_s != 0 && t_s < i_s, "?clamped case");
+    kani::cover!(true, "clamp evaluated");
+}
+h!(c16_clamp, 4, f_c16_clamp());
+
+/// The third clause as stated: every ping is answered within T of ITS OWN sending time,
+/// with solver-chosen delays; the loop must then never report a timeout.
+/// (The implementation measures from the last PONG instead, so two answers that are each
+/// in time can still be more than T apart: recorded as a known finding.)
+fn f_c16_answered_within_t(i_s: u64, t_s: u64, pings: usize) {
+    let mut ep = endpoint(ka_options(i_s, t_s), KRng::fixed([1, 2, 3, 4]));
+    let (i_ms, t_ms) = (i_s * 1000, t_s * 1000);
+    let fut = ep.task.schedule_ping_task();
+    let mut fut = core::mem::ManuallyDrop::new(fut);
+    // ping k is sent at the tick k*I and answered at k*I + d[k] with d[k] <= T; answers
+    // arrive in order
+    let d: [u64; 3] = kani::any();
+    kani::assume(d[0] <= t_ms && d[1] <= t_ms && d[2] <= t_ms);
+    let pongs = [d[0], i_ms + d[1], 2 * i_ms + d[2]];
+    kani::assume(pongs[0] <= pongs[1] && pongs[1] <= pongs[2]);
+    let (mut ti, mut pi) = (0usize, 0usize);
+    let mut step = 0;
+    // `pings` pings (ticks 0..pings-1) and one more tick at which their answers are judged
+    while step < 2 * pings + 1 && ti < pings + 1 {
+        let tt = ti as u64 * i_ms;
+        // an answer can only arrive once its ping was sent
+        let pp = if pi < pings && pi < ti { pongs[pi] } else { u64::MAX };
+        if pp < tt || (pp == tt && kani::any()) {
+            vclock::advance_to(pp);
+            let pr = now_or_never(ep.task.process_message(Message::Pong, false));
+            vassert!(matches!(pr, Some(Ok(false))), "P:C16 a Pong made process_message fail");
+            core::mem::forget(pr);
+            pi += 1;
+        } else {
+            vclock::advance_to(tt);
+            match poll_once(unsafe { Pin::new_unchecked(&mut *fut) }) {
+                Poll::Ready(_) => vfail!("P:C16 keepalive timeout although every ping was answered within T"),
+                Poll::Pending => vassert!(count_pings(&mut ep.tx_msg_rx) == 1, "P:C16 not exactly one Ping per interval"),
+            }
+            ti += 1;
+        }
+        step += 1;
+    }
+    kani::cover!(ti == pings + 1, "?all ticks passed");
+    kani::cover!(true, "scenario evaluated");
+    forget_ep(ep);
+}
+h!(c16_answered_within_t_i2_t3_p2, 8, f_c16_answered_within_t(2, 3, 2));
+h!(c16_answered_within_t_i2_t3_p3, 10, f_c16_answered_within_t(2, 3, 3));
+h!(c16_answered_within_t_i3_t3_p2, 8, f_c16_answered_within_t(3, 3, 2));
